@@ -1,6 +1,7 @@
 package storagechk
 
 import (
+	"0chain.net/core/common"
 	"fmt"
 	"sort"
 	"sync"
@@ -66,11 +67,11 @@ const zcn = uint64(1e10)
 
 // alloc is what the machine remembers about an allocation it created.
 type alloc struct {
-	id       string
-	owner    *sim.Wallet
-	open     bool
-	uploads  map[string]int64 // blobber id -> bytes stored through our markers
-	closedBy string
+	id         string
+	owner      *sim.Wallet
+	open       bool
+	uploads    map[string]int64 // blobber id -> bytes stored through our markers
+	closedBy   string
 	thirdParty bool
 }
 
@@ -84,16 +85,16 @@ type machine struct {
 	readers map[string]int64 // "blobber|client|alloc" -> last redeemed counter (model of C15)
 	extra   []*simstorage.Provider
 	// after is run after every executed (not rejected) transaction
-	after   func(m *machine, txn *transaction.Transaction, o sim.Outcome, before *snapshot) error
-	classes map[string]int
-	ops     int
+	after    func(m *machine, txn *transaction.Transaction, o sim.Outcome, before *snapshot) error
+	classes  map[string]int
+	ops      int
 	lastRead *readAttempt
 	// onApplied updates the model for the transaction being executed before the oracle runs
 	onApplied func(o sim.Outcome)
 	// opsList overrides the default operation mix of step()
 	opsList []string
 	// cur describes the operation being executed (what the generator meant), for the oracles
-	cur curOp
+	cur       curOp
 	assigners []*assigner
 	lastRead2 *readAttempt2
 	triples   []tripleRef // (allocation, blobber, reader) triples with a successful redemption
@@ -110,15 +111,15 @@ type curOp struct {
 }
 
 type assigner struct {
-	name       string
-	w          *sim.Wallet
-	indiv      float64
-	total      float64
-	nextNonce  int64
-	used       map[int64]bool // nonces redeemed successfully
-	redeemed   uint64         // tokens granted (model)
-	accepted   int
-	rejected   int
+	name      string
+	w         *sim.Wallet
+	indiv     float64
+	total     float64
+	nextNonce int64
+	used      map[int64]bool // nonces redeemed successfully
+	redeemed  uint64         // tokens granted (model)
+	accepted  int
+	rejected  int
 }
 
 func newMachine(t *rapid.T, prop string) *machine {
@@ -648,8 +649,11 @@ func (m *machine) step() {
 		if o := m.do(w.UpdateSettings(nil, map[string]string{name: val})); ok(o) {
 			m.do(w.CommitSettingsChanges())
 		}
-	case "fillAlloc":
-		// one marker that fills what is left of a blobber's share of an allocation
+	case "fillAlloc", "datedFill":
+		// one marker that fills what is left of a blobber's share of an allocation; datedFill: the marker carries a
+		// time of the client's choosing inside the allocation's life (the contract prices the upload from the marker's
+		// time to the expiration, so a marker dated at the start of an allocation that was extended since costs more
+		// than the allocation was funded for)
 		a := m.pickAlloc(true)
 		if a == nil {
 			return
@@ -670,6 +674,18 @@ func (m *machine) step() {
 		}
 		m.cur = curOp{op: op, alloc: a, provider: b, from: b.Op, wasOpen: a.open}
 		p := simstorage.WriteParams{AllocID: a.id, Blobber: b, Signer: a.owner, Size: size}
+		if op == "datedFill" {
+			switch rapid.SampledFrom([]string{"start", "start", "between", "expiration", "before-start"}).Draw(t, "markerTime") {
+			case "start":
+				p.Timestamp = common.Timestamp(al.StartTime)
+			case "between":
+				p.Timestamp = common.Timestamp(al.StartTime + (al.Expiration-al.StartTime)/int64(rapid.IntRange(2, 5).Draw(t, "fraction")))
+			case "expiration":
+				p.Timestamp = common.Timestamp(al.Expiration)
+			case "before-start":
+				p.Timestamp = common.Timestamp(al.StartTime - 1)
+			}
+		}
 		m.onApplied = func(o sim.Outcome) {
 			if ok(o) {
 				a.uploads[b.ID()] += size
@@ -759,6 +775,54 @@ func (m *machine) step() {
 			case "pass":
 				m.do(w.PassingResponse(ch))
 			}
+		}
+	case "extendBackdate":
+		// an allocation lives for a good part of its time unit, is extended (its expiration moves to now + one time
+		// unit, its start stays), and then every blobber's share is filled with markers the client dated at the start
+		// of the allocation: the contract prices them for more than one time unit, more than the allocation's funding
+		// was computed for
+		a := m.pickAlloc(true)
+		if a == nil {
+			return
+		}
+		al, found, _ := w.View().Allocation(a.id)
+		if !found || !a.open {
+			return
+		}
+		left := al.Expiration - int64(m.h.Now)
+		if left < 100 {
+			return
+		}
+		secs := left * int64(rapid.SampledFrom([]int{50, 90, 25, 99}).Draw(t, "livedPercent")) / 100
+		m.h.NextBlock(int64(rapid.IntRange(1, 20).Draw(t, "rounds")), secs)
+		_ = m.w.KeepAlive()
+		p := simstorage.UpdateParams{From: a.owner, AllocID: a.id, Extend: true, Lock: currency.Coin(rapid.SampledFrom([]uint64{0, 0, zcn, 50 * zcn}).Draw(t, "lock"))}
+		m.cur = curOp{op: op, alloc: a, from: p.From, wasOpen: a.open}
+		if o := m.do(w.UpdateAllocation(p)); !ok(o) {
+			return
+		}
+		al, found, _ = w.View().Allocation(a.id)
+		if !found {
+			return
+		}
+		for _, ba := range al.Blobbers {
+			b := w.Blobber(ba.BlobberID)
+			free := ba.Size - ba.Stats.UsedSize
+			if b == nil || free <= 0 || rapid.IntRange(0, 5).Draw(t, "skip") == 0 {
+				continue
+			}
+			size := free
+			wp := simstorage.WriteParams{AllocID: a.id, Blobber: b, Signer: a.owner, Size: size}
+			if rapid.IntRange(0, 4).Draw(t, "datedNow") != 0 {
+				wp.Timestamp = common.Timestamp(al.StartTime)
+			}
+			m.cur = curOp{op: op, alloc: a, provider: b, from: b.Op, wasOpen: a.open}
+			m.onApplied = func(o sim.Outcome) {
+				if ok(o) {
+					a.uploads[b.ID()] += size
+				}
+			}
+			m.do(w.CommitConnection(wp))
 		}
 	case "repriceExtend":
 		// blobbers of an allocation that holds data change their write prices in opposite directions, then the owner
